@@ -903,7 +903,7 @@ func shrink(hist []op, fails func([]op) bool) []op {
 }
 
 // ---------------------------------------------------------------------------
-// Canaries: fixed minimal witnesses of the open finding "node cache capacity below the working
+// Canary: a fixed minimal witness (badger backend, tree-level symptom) of the open finding "node cache capacity below the working
 // set of one operation", executed at start-up so that its signatures are reported by every run
 // independently of the seed. They go through the same classification rule as generated
 // histories (class "tiny" iff 0 < node capacity < 2D+4) and are silent once the defect is gone.
@@ -928,13 +928,6 @@ func runCanaries() {
 				mk(opInsert, h("7f21"), h("807f80"), nil, 0), mk(opInsert, h("62"), h("7f62"), nil, 0),
 				mk(opInsert, h("01ff7f7f"), h("627f"), nil, 0), mk(opInsert, h("8062"), h("62"), nil, 0),
 				mk(opCommit, nil, nil, nil, 0), mk(opInsert, h("6100"), h("7f"), nil, 0), mk(opFullIter, h("8062"), nil, nil, 0),
-			}},
-		{"tiny-cache-panic",
-			config{Backend: lab.BackendPathBadger, Capacity: "n1v1", CapClass: "tiny", CapSet: true, CapNodes: 1, CapValues: 1, Mechanism: "raw", StartVer: 0},
-			[]op{
-				mk(opInsert, h("008062808062"), h("617f"), nil, 0), mk(opInsert, h("0101"), h("8062"), nil, 0),
-				mk(opInsert, h("0080628061"), h(""), nil, 0), mk(opCommit, nil, nil, nil, 0),
-				mk(opInsert, h("00806280"), h("8001"), nil, 0), mk(opReopen, nil, nil, nil, 0),
 			}},
 	}
 	for ci := range canaries {
